@@ -18,7 +18,8 @@ extern "C" {
 
 namespace {
 
-enum { OP_SPEC = 1, OP_LAUNCH, OP_JOIN, OP_JOIN_ALL, OP_SET_TIMEOUT, OP_SLEEP, OP_YIELD, OP_ATEXIT, OP_ATEXIT_MAIN, OP_COUNT_QUERY, OP_DETACH };
+enum { OP_SPEC = 1, OP_LAUNCH, OP_JOIN, OP_JOIN_ALL, OP_SET_TIMEOUT, OP_SLEEP, OP_YIELD, OP_ATEXIT, OP_ATEXIT_MAIN, OP_COUNT_QUERY, OP_DETACH, OP_CALL_ONCE };
+// OP_CALL_ONCE: a = flag (0..2), b = the once-function registers an at-exit callback on the thread it runs on
 static const int MAXT = 12;
 
 struct TRec {
@@ -249,6 +250,39 @@ void do_join_all(Ctx &c, bool final_call) {
     }
 }
 
+// aws_thread_call_once: the function runs at most once per flag, on the calling thread, and has completed when any call returns;
+// an at-exit callback it registers belongs to the (launched) thread it ran on like any other
+static aws_thread_once g_once[3];
+static int g_once_runs[3];
+static bool g_once_done[3];
+struct OnceCall { Ctx *c; int id; int tid; int flag; bool reg; };
+
+void once_fn(void *ud) {
+    OnceCall *oc = (OnceCall *)ud;
+    Ctx &c = *oc->c;
+    sim::note(sim::PK_HARNESS, nullptr, 5000 + oc->flag);
+    if (++g_once_runs[oc->flag] > 1) sim::violation("c20:once-twice", "call_once function of flag %d ran twice", oc->flag);
+    if (sim::self() != oc->tid) sim::violation("c20:once-thread", "call_once function ran on T%d, not on the calling thread T%d", sim::self(), oc->tid);
+    sim::yield(); // others may arrive while the function is in progress
+    if (oc->reg) {
+        if (oc->id > 0) {
+            TRec &r = c.t[oc->id];
+            int tag = (int)r.atexit_registered.size() + 1;
+            r.atexit_registered.push_back(tag);
+            r.atexit_pending.push_back(tag);
+            sim::probe("at_exit_registered_from_call_once_function");
+            if (aws_thread_current_at_exit(atexit_cb, (void *)(intptr_t)(oc->id * 1000 + tag)))
+                sim::violation("c20:atexit", "aws_thread_current_at_exit failed inside a call_once function on an aws thread");
+        } else {
+            sim::probe("at_exit_attempted_from_call_once_function_on_main");
+            if (aws_thread_current_at_exit(atexit_cb, (void *)(intptr_t)999998) == AWS_OP_SUCCESS)
+                sim::violation("c20:atexit", "aws_thread_current_at_exit succeeded inside a call_once function on a thread that was not launched through aws_thread_launch");
+        }
+    }
+    c.hist = sim::mix64(c.hist, 5000 + (uint64_t)oc->flag * 16 + (uint64_t)oc->id);
+    g_once_done[oc->flag] = true;
+}
+
 void body(Ctx &c, int id) {
     for (const sim::Op &op : c.plan->ops) {
         if (op.thr != id) continue;
@@ -280,6 +314,13 @@ void body(Ctx &c, int id) {
                 if (id == 0) { c.timeout_ns = (uint64_t)op.a; aws_thread_set_managed_join_timeout_ns(c.timeout_ns); }
                 break;
             case OP_COUNT_QUERY: (void)aws_thread_get_managed_thread_count(); break;
+            case OP_CALL_ONCE: {
+                OnceCall oc{&c, id, sim::self(), (int)(op.a % 3), op.b != 0};
+                aws_thread_call_once(&g_once[oc.flag], once_fn, &oc);
+                if (!g_once_done[oc.flag]) sim::violation("c20:once-early", "aws_thread_call_once(flag %d) returned before the function had completed", oc.flag);
+                c.ops_done++;
+                break;
+            }
         }
     }
     // a thread that launched joinable threads joins them before it returns
@@ -326,6 +367,7 @@ RunInfo run(const sim::Plan &plan) {
             r.id = id; r.defined = true; r.managed = op.b != 0; r.opt = (int)(op.c % 7); r.fault = (int)op.d;
             if (r.managed && r.opt == 0) r.opt = 1;
         }
+    for (int k = 0; k < 3; k++) { aws_thread_once init = AWS_THREAD_ONCE_STATIC_INIT; g_once[k] = init; g_once_runs[k] = 0; g_once_done[k] = false; }
     sim::begin(plan);
     sim::set_observer(observer, &c);
     c.main_tid = sim::self();
@@ -409,7 +451,8 @@ void gen(uint64_t seed, int tier, sim::Plan &p) {
             if (w < 3) { o.kind = OP_ATEXIT; o.a = r.chance(0.2); }
             else if (w < 6) { o.kind = OP_YIELD; }
             else if (w < 9) { o.kind = OP_SLEEP; o.a = r.pick(std::vector<int64_t>{1000, 100000, 1000000, 1000000, 50000000, 1000000000}); }
-            else { o.kind = OP_COUNT_QUERY; }
+            else if (r.chance(0.5)) { o.kind = OP_COUNT_QUERY; }
+            else { o.kind = OP_CALL_ONCE; o.a = r.range(0, 2); o.b = r.chance(0.6); }
             p.ops.push_back(o);
         }
         if (t <= nmanual && extra_callers < max_extra_callers && r.chance(0.3)) { extra_callers++; sim::Op j; j.thr = t; j.kind = OP_JOIN_ALL; p.ops.push_back(j); } // concurrent join-all callers
@@ -420,6 +463,7 @@ void gen(uint64_t seed, int tier, sim::Plan &p) {
     }
     // main
     if (r.chance(0.1)) { sim::Op o; o.thr = 0; o.kind = OP_ATEXIT_MAIN; p.ops.push_back(o); }
+    if (r.chance(0.08)) { sim::Op o; o.thr = 0; o.kind = OP_CALL_ONCE; o.a = r.range(0, 2); o.b = r.chance(0.5); p.ops.push_back(o); }
     std::vector<int> mine;
     for (int i = 1; i <= total; i++) if (launcher[i] == 0) mine.push_back(i);
     bool join_all_placed = false;
@@ -471,6 +515,7 @@ std::string op_text(const sim::Op &op) {
         case OP_ATEXIT: snprintf(b, sizeof b, "thread %d: aws_thread_current_at_exit(next tag)%s", op.thr, op.a ? " [its callback registers one more callback]" : ""); break;
         case OP_ATEXIT_MAIN: snprintf(b, sizeof b, "main: aws_thread_current_at_exit (must be refused: not an aws thread)"); break;
         case OP_COUNT_QUERY: snprintf(b, sizeof b, "thread %d: aws_thread_get_managed_thread_count()", op.thr); break;
+        case OP_CALL_ONCE: snprintf(b, sizeof b, "thread %d: aws_thread_call_once(flag %lld)%s", op.thr, (long long)(op.a % 3), op.b ? " [the function registers an at-exit callback]" : ""); break;
         default: snprintf(b, sizeof b, "?");
     }
     return b;
